@@ -21,6 +21,14 @@ fn main() {
     std::env::set_var("NO_PROXY", "*");
     std::env::set_var("no_proxy", "*");
     let ctx = vmc::report::Ctx::from_args();
+    // own the system trust store: an empty one. Loading the real bundle costs ~55 ms of CPU per client
+    // construction (the library builds a fresh TLS connector per send) and contends badly across threads;
+    // no property depends on system roots, and the test CA must never be trusted implicitly anyway.
+    let empty = ctx.verif_dir.join("target/empty-trust-store");
+    let _ = std::fs::create_dir_all(empty.join("dir"));
+    let _ = std::fs::write(empty.join("bundle.pem"), b"");
+    std::env::set_var("SSL_CERT_FILE", empty.join("bundle.pem"));
+    std::env::set_var("SSL_CERT_DIR", empty.join("dir"));
     match ctx.id.as_str() {
         "C11" => c11::run(&ctx),
         "C12" => c12::run(&ctx),
